@@ -511,6 +511,7 @@ class VbsWriter(object):
     """
     def __init__(self, out_file: typing.BinaryIO, blocked: bool = False):
         self.out_file = out_file
+        self._finalised = False
         if blocked:
             self.out_file = Block1014(out_file)
 
@@ -557,9 +558,12 @@ class VbsWriter(object):
 
         :return: None
         """
+        if self._finalised:
+            return
         # add zero length to end of record
         self.out_file.write(struct.pack(">I", 0))
         self.out_file.seek(0)
+        self._finalised = True
 
     def __enter__(self, *args, **kwargs):
         return self
